@@ -21,7 +21,9 @@ Guard, per function variant (= per call signature; the all-int signature of the 
   * return expressions are all str or all numeric (a str/number mix is rejected by the transpiler);
   * names first assigned directly inside a loop body (t*) are never names that an if/else hoists anywhere in the
     program (y*, g*) (finding F-C02-stale-promotion-type); function-local names never coincide with globals;
-  * call arguments are names or int/bool literals (a float literal is a double: overload ambiguity is C06's).
+  * call arguments are names or int/bool literals (a float literal is a double: overload ambiguity is C06's);
+  * a helper that calls another helper shares no local name with it (the callee variant parsed on demand inherits the
+    caller's declared names and never declares its own same-named local: the sketch does not compile, C06's subject).
 """
 from __future__ import annotations
 
@@ -265,6 +267,33 @@ class Checker:
                 raise OutOfGuard(t)
 
 
+def assigned_names(stmts):
+    out = set()
+    for s in stmts:
+        if s[0] in ("assign", "aug"):
+            out.add(s[1])
+        elif s[0] == "if":
+            for _, b in s[1]:
+                out |= assigned_names(b)
+            if s[2] is not None:
+                out |= assigned_names(s[2])
+        elif s[0] == "for":
+            out.add(s[1])
+            out |= assigned_names(s[3])
+        elif s[0] == "while":
+            out.add(s[1])
+            out |= assigned_names(s[3])
+    return out
+
+
+def called_helpers(stmts, fnames):
+    import re
+    src = []
+    render_block(stmts, 0, src)
+    text = "".join(src)
+    return {f for f in fnames if re.search(r"\b" + f + r"\(", text)}
+
+
 # --------------------------------------------------------------------------- rendering
 def render_block(stmts, lvl, out):
     pad = "    " * lvl
@@ -328,7 +357,8 @@ class FnGen:
         self.rng = rng
         self.stats = {"functions": 0, "variants": 0, "return_kind_sets": {}, "calls": 0, "regenerated_bodies": 0,
                       "branch_first_locals": 0, "loop_first_locals": 0, "helper_calls_helper": 0, "aug": 0,
-                      "top_hoist_before_def": 0, "m2_combination": 0, "shared_local_different_kind": 0}
+                      "top_hoist_before_def": 0, "mixed_conditional_expressions": 0, "if_inside_loop_locals": 0,
+                      "loop_inside_if_locals": 0, "top_loop_hoist": 0, "m2_combination": 0, "shared_local_different_kind": 0}
 
     # ---- polymorphic expressions over names
     def atom(self, names, lits=True):
@@ -353,8 +383,14 @@ class FnGen:
             return f"({self.expr(d - 1, names)} * {rng.choice(['0.5', '2', '2.5'])})"
         if r < 0.68:
             return f"({self.expr(d - 1, names)} / {rng.choice(['2.0', '4.0'])})"
-        if r < 0.80:
+        if r < 0.76:
             return f"({self.expr(d - 1, names)} if {self.cond(names)} else {self.expr(d - 1, names)})"
+        if r < 0.80:                                          # bool / number join of a conditional expression, both orders
+            a, b = rng.choice(["True", "False", self.cond(names)]), self.expr(d - 1, names)
+            if rng.random() < 0.5:
+                a, b = b, a
+            self.stats["mixed_conditional_expressions"] += 1
+            return f"({a} if {self.cond(names)} else {b})"
         if r < 0.86:
             return f"{rng.choice(['min', 'max'])}({self.atom(names)}, {self.atom(names)})"
         if r < 0.90:
@@ -378,11 +414,16 @@ class FnGen:
         rng = self.rng
         names = list(params)
         out = []
-        cnt = {"w": 0, "y": 0, "t": 0, "i": 0, "k": 0}
+        cnt = {"w": 0, "y": 0, "t": 0, "i": 0, "k": 0, "u": 0}
+        # a variant parsed on demand from inside another helper's body inherits the caller's declared names, and a callee
+        # local of the same name is then never declared (the sketch does not compile: C06's subject).  A helper that calls
+        # another helper therefore gets local names of its own; all other helpers share y1, t1, w1, ...
+        can_call = bool(earlier) and rng.random() < 0.4
+        suffix = f"c{len(earlier) + 1}" if can_call else ""
 
         def fresh(p):
             cnt[p] += 1
-            return f"{p}{cnt[p]}"
+            return f"{p}{cnt[p]}{suffix}"
 
         for _ in range(rng.choice([1, 2, 2, 3, 4])):
             r = rng.random()
@@ -415,13 +456,30 @@ class FnGen:
                     out.append(("while", fresh("k"), rng.choice(["1", "2"]), [("assign", t, e)]))
                 names.append(t)
                 self.stats["loop_first_locals"] += 1
-            elif r < 0.82:                                    # early return on a value-dependent path
+            elif r < 0.72:                                    # if/else hoist inside a loop body, then hoisted out of the loop
+                y = fresh("y")
+                e1 = self.expr(rng.choice([0, 1]), names)
+                inner = ("if", [(self.cond(names), [("assign", y, e1)])], [("assign", y, f"({e1} + 1)")])
+                if rng.random() < 0.5:
+                    out.append(("for", fresh("i"), rng.choice(["1", "2"]), [inner]))
+                else:
+                    out.append(("while", fresh("k"), rng.choice(["1", "2"]), [inner]))
+                names.append(y)
+                self.stats["if_inside_loop_locals"] += 1
+            elif r < 0.76:                                    # loop hoist inside a branch, then hoisted out of the if/else
+                u = fresh("u")
+                e1 = self.expr(rng.choice([0, 1]), names)
+                out.append(("if", [(self.cond(names), [("for", fresh("i"), rng.choice(["1", "2"]), [("assign", u, e1)])])],
+                            [("assign", u, f"({e1} * 2)")]))
+                names.append(u)
+                self.stats["loop_inside_if_locals"] += 1
+            elif r < 0.86:                                    # early return on a value-dependent path
                 out.append(("if", [(self.cond(names), [("return", self.ret_expr(names))])], None))
-            elif r < 0.90 and [n for n in names if n not in params]:
+            elif r < 0.92 and [n for n in names if n not in params]:
                 x = rng.choice([n for n in names if n not in params])
                 out.append(("aug", x, rng.choice(["+", "-", "*"]), self.atom(names)))
                 self.stats["aug"] += 1
-            elif earlier:
+            elif can_call:
                 f, ar = rng.choice(earlier)
                 if len(names) >= 1:
                     z = fresh("w")
@@ -472,7 +530,12 @@ class FnGen:
             funcs.append((name, params, body))
         if use_str:
             funcs.append(rng.choice(STR_FUNCS))
-        ck = Checker([(f, (ps, b)) for f, ps, b in funcs], global_names=gnames | {"m1", "g1", "g2"})
+        for f, ps, b in funcs:                                   # caller / callee local names are disjoint (see body())
+            mine = assigned_names(b)
+            for g_ in called_helpers(b, [x[0] for x in funcs]):
+                if mine & assigned_names(next(x[2] for x in funcs if x[0] == g_)):
+                    return None
+        ck = Checker([(f, (ps, b)) for f, ps, b in funcs], global_names=gnames | {"m1", "g1", "g2", "j1"})
         # call signatures per function: the all-int variant of the def-time parse must be inside the guard too
         calls = []
         for f, ps, b in funcs:
@@ -504,6 +567,11 @@ class FnGen:
         hoist = [("stmt", ("assign", "m1", rng.choice(["2", "0"]))),
                  ("stmt", ("if", [("m1 > 1", [("assign", "g1", lit1)])], [("assign", "g1", lit2)])),
                  ("stmt", ("write", "g1"))]
+        if rng.random() < 0.4:                                # a global first assigned inside a top-level loop, read afterwards
+            k2 = rng.choice(["float", "int", "bool"])
+            hoist += [("stmt", ("for", "j1", rng.choice(["1", "2"]), [("assign", "g2", {"float": "j1 * 0.5", "int": "j1 + 3", "bool": "j1 > 0"}[k2])])),
+                      ("stmt", ("write", "g2"))]
+            self.stats["top_loop_hoist"] += 1
         gl_items = [("stmt", ("assign", g[0], g[2])) for g in gl]
         defs = [("def", f, ps, b) for f, ps, b in funcs]
         call_items = []
@@ -613,9 +681,12 @@ def fixed_programs():
     loopw = ("def", "h4", ["p"], [("while", "k1", "2", [("assign", "t1", "p + k1")]), ("return", "t1")])
     other = ("def", "h5", ["p"], [("if", [("p > 1", [("assign", "y1", "\"big\"")])], [("assign", "y1", "\"small\"")]), ("return", "y1")])
     nest = ("def", "h6", ["p"], [("assign", "w1", "h1(p)"), ("return", "w1 + 1")])
+    cexp = ("def", "h5", ["p"], [("assign", "w1", "(True if p > 5 else p + 2)"), ("return", "w1")])
+    cexp2 = ("def", "h6", ["p"], [("return", "(p * 2 if p > 1 else False)")])
     progs = [
-        (G + [deb, ratio, mixif, cmpf] + calls(["h1(n1, n2)", "h1(n3, n2)", "h1(n2, n1)", "h1(r1, n2)", "h2(n1, n2)", "h2(n1, 0)",
-                                                "h3(n1)", "h3(n2)", "h4(n1)", "h4(n2)", "h4(n4)", "h4(x3)", "h4(x1)"]), 0),
+        (G + [deb, ratio, mixif, cmpf, cexp, cexp2]
+         + calls(["h1(n1, n2)", "h1(n3, n2)", "h1(n2, n1)", "h1(r1, n2)", "h2(n1, n2)", "h2(n1, 0)", "h3(n1)", "h3(n2)", "h4(n1)", "h4(n2)",
+                  "h4(n4)", "h4(x3)", "h4(x1)", "h5(n1)", "h5(n2)", "h5(x1)", "h6(n1)", "h6(n4)", "h6(x1)", "h6(x2)"]), 0),
         (hoist + G + [scale, scale3, loopf, loopw, other, nest]
          + calls(["h1(n1)", "h1(x1)", "h1(x2)", "h1(n4)", "h2(n1, x1)", "h2(x2, x1)", "h2(n4, n1)", "h2(x4, x1)",
                   "h3(x1)", "h3(n1)", "h4(x2)", "h4(n1)", "h5(n1)", "h5(x2)", "h6(x1)", "h6(n1)"]), 0),
